@@ -1,6 +1,7 @@
 import ExprModel.Drv.Arith
 import ExprModel.Drv.Code
 import ExprModel.Drv.Lex
+import ExprModel.Drv.Parse
 import ExprModel.Drv.Source
 import ExprModel.Drv.Spec
 import ExprModel.Drv.SrcDefects
@@ -15,6 +16,7 @@ open ExprModel
 
 def handlers : List (String × (List Sexp → Sexp)) :=
   Drv.arithHandlers ++
+  Drv.parseHandlers ++
   Drv.codeHandlers ++
   Drv.specHandlers ++
   Drv.sourceHandlers ++
